@@ -63,7 +63,7 @@ def run(tier, seed, jobs):
     core = [{"s": "A", "op": "del", "set": "1"}, {"s": "A", "op": "del", "set": "*"}, {"s": "A", "op": "append", "m": "INBOX"},
             {"s": "env", "op": "deliver", "m": "INBOX"}, {"s": "env", "op": "poll", "dt": 21.0},
             {"s": "B", "op": "fetch", "set": "1:*", "items": SUBJ, "uid": True}]
-    plans.append({"cfg_ref": ("vf.props.c03", "cfg", [3]), "alphabet": core, "depth": 5 if tier == "quick" else 7, "label": "INBOX(3), core alphabet, deep"})
+    plans.append({"cfg_ref": ("vf.props.c03", "cfg", [3]), "alphabet": core, "depth": 5 if tier == "quick" else 6, "label": "INBOX(3), core alphabet, deep"})
     res = run_h(PROP, RULES, plans, ("C03",), jobs, seed,
                 ["sessions A (mutator) and B (prober) both selected on INBOX(3 or 4); pack threshold lowered to 2 messages",
                  "expunge subsets are the 6 listed set shapes per state (composed over the history they reach every subset)",
@@ -75,7 +75,9 @@ def run(tier, seed, jobs):
 
     per = []
     for sc in s_scenarios(tier):
-        r = sched.explore(sc, 2 if tier == "quick" else 3, jobs, seed, max_exec=20000 if tier == "quick" else 80000)
+        from .c10 import thorough_bound
+
+        r = sched.explore(sc, 2 if tier == "quick" else thorough_bound(sc["name"]), jobs, seed, max_exec=20000 if tier == "quick" else 120000)
         for f in r["failures"]:
             if f.rule.startswith("C03.") or f.rule in ("C10.not-linearizable", "C01.fetch-binding"):
                 f.rule = f.rule.replace("C10.", "C03.").replace("C01.", "C03.")
